@@ -131,6 +131,10 @@ package analysis
 //@   at call AddLocVar#* before assert[initialisers-analysed-before-any-name-is-bound] hits("cgExp#0") >= len(node.ExpList) || hits("cgExp#0") > len(node.NameList)
 //@   at call AddLocVar#0 before assert[name-bound-at-its-own-location-in-the-current-scope] arg0 == scope && streq(arg2, node.NameList[i]) && arg5 == node.VarLocList[i]
 //@   loop range:node.ExpList#0 invariant hits("cgExp#0") == rangeindex + 1
+// every local the statement declares records the statement's range (IsCorrectPosition keeps it invisible inside it)
+//@   loop range:node.ExpList#1 step [C05,C06,C11,declared-local-records-its-declaring-statement] varInfo.DeclStatLoc == node.Loc
+//@   loop for:i<nNames step [C05,C06,C11,declared-local-records-its-declaring-statement] (hits("AddLocVar#1") > prev(hits("AddLocVar#1")) ==> lastresult("AddLocVar#1").DeclStatLoc == node.Loc)
+//@        && (hits("AddLocVar#2") > prev(hits("AddLocVar#2")) ==> lastresult("AddLocVar#2").DeclStatLoc == node.Loc)
 // of the Lua 5.4 attributes only <close> exempts a local from the unused report (<const> does not)
 //@   loop range:node.ExpList#1 step [C07,only-to-be-closed-locals-are-exempt] (varInfo.IsClose ==> node.AttrList[i] == ast.RDKTOCLOSE) && (node.AttrList[i] == ast.RDKTOCLOSE ==> varInfo.IsClose)
 //@   loop for:i<nNames step [C07,only-to-be-closed-locals-are-exempt] (hits("AddLocVar#1") > prev(hits("AddLocVar#1")) ==>
